@@ -371,6 +371,11 @@ pub fn scenarios(tier: Tier) -> (Vec<Scenario>, Limits, String) {
         out.push(Scenario { frames: fs.clone(), avail: wire(&fs).len(), max_len: Some(2), ctor: 0, relimit: Some((0, 3)) });
     }
     // hostile declared lengths, always last, full stream and one truncation
+    if tier == Tier::Thorough {
+        // (deviation budget 1: every execution makes the reader provide a 2 GiB buffer)
+        let fs = vec![frame_2_pow_31()];
+        out.push(Scenario { frames: fs.clone(), avail: 4, max_len: Some(u32::MAX), ctor: 0, relimit: None });
+    }
     for h in hostile_frames() {
         for lead in [vec![], vec![kinds[0].clone()]] {
             let mut fs = lead.clone();
@@ -410,7 +415,7 @@ pub fn run(r: &Report) {
             let mut nontrivial = 0u64;
             mcx::slot::case("c15-scenario", format!("{:?}", sc.json().to_string()).as_bytes());
             let t0 = std::time::Instant::now();
-            let (stats, fail) = explore_shard(if sc.avail > 100_000 { lim.b.min(2) } else { lim.b }, &[first, second], FIRST as u32, |ch| {
+            let (stats, fail) = explore_shard(if sc.frames.iter().any(|f| f.declared >= 1 << 30 && sc.max_len == Some(u32::MAX)) { 1 } else if sc.avail > 100_000 { lim.b.min(2) } else { lim.b }, &[first, second], FIRST as u32, |ch| {
                 mcx::slot::beat();
                 let mut obs = None;
                 let res = mcx::par::guard(|| run_once(sc, lim, ch, &mut obs));
@@ -472,7 +477,7 @@ pub fn run(r: &Report) {
 pub fn replay_case(case: &serde_json::Value) -> Result<(), String> {
     let sc = &case["scenario"];
     let names: Vec<String> = sc["frames"].as_array().unwrap().iter().map(|x| x.as_str().unwrap().to_string()).collect();
-    let all: Vec<Frame> = frame_kinds().into_iter().chain(hostile_frames()).chain(large_frames()).collect();
+    let all: Vec<Frame> = frame_kinds().into_iter().chain(hostile_frames()).chain(large_frames()).chain([frame_2_pow_31()]).collect();
     let frames: Vec<Frame> = names.iter().map(|n| all.iter().find(|f| f.name == n).unwrap().clone()).collect();
     let scen = Scenario {
         frames,
